@@ -86,6 +86,10 @@ def run(rep, tier, seed, model_ok=True, effort=1):
               ("MAJOR.MINOR.PATCH", ["--patch"], "0.9.9", "default", ["0.10.0"], [], False),
               ("YYYY.0M.0D", [], "2020.02.01", "default", ["2020.02.30", "2020.03.01"], [], False),
               ("MAJOR.MINOR[.PATCH]", ["--minor"], "1.2", "default", ["1.2.0", "1.1"], ["1.1"], False),
+              # tags that match the pattern in full without being in its canonical spelling (bumpver creates them itself: --set-version 1.2.0)
+              ("MAJOR.MINOR[.PATCH]", ["--minor"], "1.1", "global", ["1.2.0", "1.1"], ["1.1"], False),
+              ("MAJOR.MINOR[.PATCH]", ["--minor"], "1.1", "default", ["1.3.0", "1.1"], ["1.3.0", "1.1"], False),
+              ("MAJOR.MINOR.PATCH[PYTAG[NUM]]", ["--patch"], "1.2.2", "global", ["1.2.3rc", "1.2.2"], ["1.2.2"], False),
               ("MAJOR.MINOR.PATCH", ["--patch"], "1.2.3", "branch", ["1.2.4", "1.2.3"], ["1.2.3"], False),
               ("MAJOR.MINOR.PATCH", ["--patch"], "1.2.3", "global", ["2.0.0", "1.2.3"], ["1.2.3"], False),
               ("vMAJOR.MINOR.PATCH[-TAG]", ["--patch"], "v1.0.0-rc", "default", ["v1.0.0-beta", "v1.0.0", "v1.0.0-dev"], [], False),
